@@ -522,7 +522,7 @@ def plan_digest(plan):
     for nd in g.nodes():
         t = type(nd).__name__
         extra = (id(nd.fn), id(nd.stack_frame)) if t == "Call" else (id(nd.value),) if t == "Literal" else ()
-        nodes.append((id(nd), t, nd.scope, extra, tuple(sorted(map(repr, g.nodes[nd].items())))))
+        nodes.append((id(nd), t, getattr(nd, "scope", "<no scope>"), extra, tuple(sorted(map(repr, g.nodes[nd].items())))))
     edges = sorted((id(u), id(v), edge_key_repr(k), tuple(sorted(map(repr, d.items())))) for u, v, k, d in g.edges(keys=True, data=True))
     return (tuple(nodes), tuple(edges), plan._scope, tuple(sorted(map(repr, g.graph.items()))))
 
